@@ -89,6 +89,15 @@ def loop_mods(eng, lc, body):
             if isinstance(n, ast.Call) and isinstance(n.func, ast.Attribute) and n.func.attr in (
                     "append", "pop", "clear", "extend", "insert", "remove", "sort", "reverse"):
                 mods.add("list")
+    # a contract that names the objects ("Class.f@expr", "list@expr") replaces the syntactic whole-array entry for that base
+    gran_bases = {m.split("@", 1)[0] for m in mods if "@" in m}
+    for gb in list(gran_bases):
+        if gb != "list":
+            cname, fname = gb.split(".", 1)
+            for cn, c in R.CLASSES.items():
+                if fname in c["fields"]:
+                    gran_bases.add(f"{cn}.{fname}")
+    mods = {m for m in mods if "@" in m or m not in gran_bases}
     return eng.expand_modifies(sorted(mods))
 
 
